@@ -12,7 +12,7 @@ import (
 
 var noEffectPkgs = []string{
 	"github.com/pingcap/log", "go.uber.org/zap", "github.com/prometheus/", "github.com/pingcap/failpoint",
-	"log", "github.com/sirupsen/logrus", "github.com/opentracing/", "github.com/juju/ratelimit",
+	"log", "github.com/sirupsen/logrus", "github.com/opentracing/", "github.com/juju/ratelimit", "github.com/tikv/pd/pkg/logutil",
 }
 
 // functions of these packages have no effect on the modelled heap; their results are
